@@ -363,6 +363,26 @@ class KeyText(Suite):
             "table content": key(case["dialect"], case["sql"], changed),
             "number of tables": key(case["dialect"], case["sql"], fewer),
         }
+        # data maps are dicts: the key must attach each table's content to ITS name whatever the insertion order.
+        # `reinserted` = the same map built in reverse order (informative: same key expected, not demanded);
+        # `swapped` = the first two tables' frames exchanged, inserted in reverse order (a different data map whenever
+        # the two frames differ: must not share the key)
+        rev = {t["name"]: frames[t["name"]] for t in reversed(case["tables"])}
+        out["reinserted"] = key(case["dialect"], case["sql"], rev)
+        if len(case["tables"]) >= 2:
+            a, b = case["tables"][0]["name"], case["tables"][1]["name"]
+            if out["frames"][0] != out["frames"][1]:
+                for label, order in (("swapped", list(reversed(case["tables"]))), ("swapped-same-order", case["tables"])):
+                    sw = {}
+                    for t in order:
+                        sw[t["name"]] = frames[b] if t["name"] == a else (frames[a] if t["name"] == b else frames[t["name"]])
+                    out["variants"]["frames of two tables (" + label + ")"] = key(case["dialect"], case["sql"], sw)
+                out["variants"]["frames of two tables (original reinserted vs swapped)"] = None
+                swk = out["variants"]["frames of two tables (swapped-same-order)"]
+                if not isinstance(swk, dict) and not isinstance(out["reinserted"], dict) and swk == out["reinserted"]:
+                    out["variants"]["frames of two tables (original reinserted vs swapped)"] = out["key"]
+                else:
+                    del out["variants"]["frames of two tables (original reinserted vs swapped)"]
         return out
 
     def real_canon(self, out, case=None):
